@@ -8,7 +8,8 @@ C03 — Run-length bitvector answers every query exactly and reports maximal run
    others for any value).  Its run iterator yields exactly the maximal runs (adjacent input runs merged), in
    order, with correct running offset/rank."
 
-Property theorems only (helper lemmas live in Proofs/RL.lean and Proofs/Glue4.lean).
+Property theorems only (helper lemmas live in Proofs/RL.lean, Proofs/RLQueries.lean, Proofs/Glue4.lean and
+Proofs/Glue5.lean).
 
 Model (Model/RL.lean).  `RLBuilder` / `RL` / `RunIter` / `SampleIndex` transcribe `rl_vector.rs` and
 `rl_vector/index.rs`: runs are written as pairs (gap, length − 1) of variable-length integers in 4-bit code
@@ -22,20 +23,13 @@ Input space.  `RL.RunsFrom 0 runs`: `runs` is a list of `(start, length)` in inc
 every run ending below 2^64; `n < 2^64` is the total length (`set_len(n)` after the last run; trailing zeros
 or none).  `RL.runBits runs n` is the bit sequence: zeros up to each start, then the run, then zeros up to
 `n`.  `maximalRuns B` (Spec/Bits.lean) is the reference: the maximal runs of set bits of a bit list.
-The stronger theorems `runs_of_any_call_history` / C16 cover EVERY sequence of accepted builder calls
-(`try_set`, `set_len`, `set_bit` in any interleaving), not only this canonical one.
+The `…_any_history` theorems / C16 cover EVERY sequence of accepted builder calls (`try_set`, `set_len`,
+`set_bit` in any interleaving, `usize` arguments), with `B` = the bit sequence those calls describe
+(`RL.specCall`), not only this canonical one.
 
-**Proven in full**: the code-unit codec (round trip, 1..22 units, prefix-free, decoding inside the vector);
-the `SampleIndex` parameters (no bound on the universe any more: F8) and the `range` contract established
-by `SampleIndex::new` for non-decreasing values (duplicates allowed: F10); the `block_for` binary search;
-the builder invariant for `try_set` and the repaired `set_len` (F9); **the vector can be constructed**: the
-builder accepts every run list AND `From<RLBuilder>` never faults (`construction_succeeds`; in general for
-every accepted call history: `conversion_never_faults`); `len`, `count_ones`, `count_zeros` of the
-converted vector; and the run iterator: `run_iter()` + `next()` until `None` yields exactly `maximalRuns`,
-each with the running `(rank, offset)` after it, both modes.
-
-**Partial** — `queries_exact_partial` (the headline).  The intended full statement, for
-`B = RL.runBits runs n` and the vector `v` built from `runs`, `n`, for both modes `m`:
+**Proven in full** — `queries_exact` (the headline) and `queries_exact_any_history`.  For
+`B = RL.runBits runs n` (resp. the bit sequence of the call history), for both modes `m`, with NO further
+hypothesis:
 
       ∃ v, (build) = ok v ∧
       v.len = B.length ∧ v.ones = B.count true ∧ v.countZeros = B.count false ∧
@@ -45,14 +39,31 @@ each with the running `(rank, offset)` after it, both modes.
       (∀ x, first item of v.predecessor m x = predSpec B x) ∧ (∀ x, first item of v.successor m x = succSpec B x) ∧
       items of v.run_iter() = maximalRuns B with running (rank, offset)
 
-  What is proven of it: "(build) = ok v" (unconditionally), the `len` / `count_ones` / `count_zeros` conjuncts
-  and the run-iterator conjunct.  What is missing: the `get` / `rank` / `rank_zero` / `select` / `select_zero` /
-  `predecessor` / `successor` conjuncts — the end-to-end composition `range` → `block_for` → `iter_for_block` →
-  in-block walk is not proven.  The ingredients are (`index_range_contract`, `block_search_exact`, the
-  single-step theorems `RunIter.nextQ_*` and `RunIter.Layout` of Proofs/RL); they are stated below so that the
-  gap is exactly "compose them".  These seven queries are covered by correspondence.
+  plus what the code does outside the domain the property defines: `get(i)` with `i ≥ len` returns `false`
+  (no panic), and `rank_zero(i)` is `i − rank(i)` for EVERY `i` (the trait's default `index - rank(index)`; for
+  `i > len` this is `i − count_ones`, which is not a count of zeros of the vector — the property defines
+  `rank_zero` up to `len` only; both forms are stated).
+
+  The block-count side condition of the query theorems of Proofs/RLQueries (`v.blocks + 8 < 2^64`, needed by
+  `SampleIndex::new`) is DISCHARGED from the builder invariant (`block_count_bound`): the flushed runs are
+  the maximal runs of `B`, each block holds at least one run and every run but the first is preceded by an
+  unset bit, so `2 · blocks ≤ len + 1 ≤ 2^64`, i.e. at most 2^63 blocks.  Nothing is excluded.
+
+  Also in full: the code-unit codec (round trip, 1..22 units, prefix-free, decoding inside the vector); the
+  `SampleIndex` parameters (no bound on the universe: F8) and the `range` contract established by
+  `SampleIndex::new` for non-decreasing values (duplicates allowed: F10); the `block_for` binary search; the
+  builder invariant for `try_set` and the repaired `set_len` (F9); construction (`construction_succeeds`,
+  `conversion_never_faults`); the iterators `one_iter()`, `iter()`, `zero_iter()` and `select_iter(r)` (every
+  `r`) drained to the end (`one_iter_exact`, `bit_iter_exact`, `zero_iter_exact`, `select_iter_exact`).
+
+**Partial** (not part of the property's list of operations, stated for completeness):
+`select_zero_iter(r)` — proven: it succeeds for every `r`, is the documented empty iterator for
+`r ≥ count_zeros`, and otherwise starts at `(r, select_zero(r))` (`select_zero_iter_starts`); NOT proven: that
+the following `next()` calls enumerate the remaining unset bits.  The iterators are drained by `next()` only
+(the Rust types implement no `next_back`; `nth` is the default repeated `next`).
 -/
 import Sds.Proofs.Glue4
+import Sds.Proofs.Glue5
 import Sds.Proofs.Glue
 
 namespace Sds.C03
@@ -224,25 +235,147 @@ theorem construction_succeeds (m : Mode) (runs : List (Nat × Nat)) (n : Nat)
   obtain ⟨v, hv⟩ := RL.ofBuilder_total m _ (RL.callsOf_argsOk runs n 0 hruns hn) b hb
   exact ⟨b, v, hb, hi, hv⟩
 
-/-- **Headline (partial — see the file header for the full intended statement and what is missing).**
-For every run list and total length, in both modes: the vector is constructed, and `len`, `count_ones`,
-`count_zeros` and the run iterator are exact.  Missing: the `get` / `rank` / `rank_zero` / `select` /
-`select_zero` / `predecessor` / `successor` conjuncts. -/
-theorem queries_exact_partial (m : Mode) (runs : List (Nat × Nat)) (n : Nat)
+/-! ### 5. the queries -/
+
+/-- **the block-count condition always holds**: after ANY accepted call history the converted vector has
+`2 · blocks ≤ len + 1`, hence at most 2^63 blocks and `blocks + 8 < 2^64` — the side condition of
+`SampleIndex::new` and of the query theorems of Proofs/RLQueries, discharged from the builder invariant -/
+theorem block_count_bound (m : Mode) (calls : List RL.BCall) (hc : ∀ c ∈ calls, RL.callArgsOk c)
+    (b : RLBuilder) (hb : RL.runBCalls m calls {} = ok b) (v : RL) (hv : RL.ofBuilder m b = ok v) :
+    2 * v.blocks ≤ v.len + 1 ∧ v.blocks + 8 < U64 :=
+  Glue5.blocks_bound_calls m calls hc b hb v hv
+
+/-- **every query, every accepted call history.**  For ANY sequence of accepted `try_set` / `set_len` /
+`set_bit` calls with `usize` arguments, with `B` the bit sequence the calls describe, in both modes: the
+conversion succeeds and the vector answers `len`, `count_ones`, `count_zeros`, `get`, `rank`, `rank_zero`,
+`select`, `select_zero`, `predecessor`, `successor` by the list-level definitions on `B`, for EVERY argument
+(every `usize` value and beyond), and `run_iter()` yields the maximal runs of `B` with the running
+`(rank, offset)`.  `get` is also stated outside its domain (`false`), `rank_zero` both as defined (up to `len`)
+and as computed (`i − rank(i)`, every `i`).  No hypothesis on the number of blocks, runs or lengths. -/
+theorem queries_exact_any_history (m : Mode) (calls : List RL.BCall) (hc : ∀ c ∈ calls, RL.callArgsOk c)
+    (b : RLBuilder) (hb : RL.runBCalls m calls {} = ok b) :
+    ∃ v, RL.ofBuilder m b = ok v ∧
+      v.len = (calls.foldl RL.specCall []).length ∧
+      v.ones = (calls.foldl RL.specCall []).count true ∧
+      v.countZeros = (calls.foldl RL.specCall []).count false ∧
+      (∀ i (hi : i < (calls.foldl RL.specCall []).length), v.get m i = ok (calls.foldl RL.specCall [])[i]) ∧
+      (∀ i, (calls.foldl RL.specCall []).length ≤ i → v.get m i = ok false) ∧
+      (∀ i, v.rank m i = ok (rankSpec (calls.foldl RL.specCall []) i)) ∧
+      (∀ i, i ≤ (calls.foldl RL.specCall []).length →
+        v.rankZero m i = ok (rankZeroSpec (calls.foldl RL.specCall []) i)) ∧
+      (∀ i, v.rankZero m i = ok (i - rankSpec (calls.foldl RL.specCall []) i)) ∧
+      (∀ r, v.select m r = ok (selectSpec (calls.foldl RL.specCall []) r)) ∧
+      (∀ r, v.selectZero m r = ok (selectZeroSpec (calls.foldl RL.specCall []) r)) ∧
+      (∀ x, ∃ oi oi', v.predecessor m x = ok oi ∧
+        oi.nextQ m v = ok (predSpec (calls.foldl RL.specCall []) x, oi')) ∧
+      (∀ x, ∃ oi oi', v.successor m x = ok oi ∧
+        oi.nextQ m v = ok (succSpec (calls.foldl RL.specCall []) x, oi')) ∧
+      ∃ it0 e endPos, v.runIter = ok it0 ∧
+        RunIter.collect m v ((maximalRuns (calls.foldl RL.specCall [])).length + 1) it0 =
+          ok (RunIter.withPos 0 (maximalRuns (calls.foldl RL.specCall [])), e) ∧
+        e.pos = ((calls.foldl RL.specCall []).count true, endPos) ∧
+        endPos ≤ (calls.foldl RL.specCall []).length := by
+  obtain ⟨v, hv⟩ := RL.ofBuilder_total m calls hc b hb
+  obtain ⟨q1, q2, q3, q4, q5, q6, q7, q8, q9, q10, q11⟩ :=
+    RLQ.build_queries m calls hc b hb v hv (block_count_bound m calls hc b hb v hv).2
+  obtain ⟨_, _, hit⟩ := RL.build_iterate_calls m calls hc b hb v hv
+  exact ⟨v, hv, q1, q2, q3, fun i hi => by rw [q4 i, Glue5.getSpec_lt _ i hi],
+    fun i hi => by rw [q4 i, Glue5.getSpec_ge _ i hi], q5, q7, q6, q8, q9, q11, q10, hit⟩
+
+/-- **Headline: C03 in full.**  For every run list (`RL.RunsFrom 0 runs`: increasing, non-overlapping,
+possibly adjacent runs of positive length ending below 2^64) and every total length `n < 2^64`, in both
+modes: the builder accepts every call, the conversion succeeds, and the vector answers EVERY query for EVERY
+argument by the list-level definitions on `B = RL.runBits runs n` — `len` (`= max n (end of the last run)`),
+`count_ones`, `count_zeros`, `get` (below `len`; `false` beyond), `rank` (any `i`), `rank_zero` (up to `len`
+as defined; `i − rank(i)` for any `i`), `select`, `select_zero` (any rank; `None` from the count on),
+`predecessor`, `successor` (any `x`: the first item of the returned iterator is the specified
+`(rank, position)`, or the iterator is empty) — and `run_iter()` yields exactly the maximal runs of `B`
+(adjacent input runs merged), in order, each with the running `(rank, offset)` after it. -/
+theorem queries_exact (m : Mode) (runs : List (Nat × Nat)) (n : Nat)
     (hruns : RL.RunsFrom 0 runs) (hn : n < U64) :
     ∃ b v, RL.runBCalls m (RL.callsOf runs n) {} = ok b ∧ RL.ofBuilder m b = ok v ∧
       v.len = (RL.runBits runs n).length ∧ v.len = max n (RL.endOf 0 runs) ∧
       v.ones = (RL.runBits runs n).count true ∧ v.countZeros = (RL.runBits runs n).count false ∧
+      (∀ i (hi : i < (RL.runBits runs n).length), v.get m i = ok (RL.runBits runs n)[i]) ∧
+      (∀ i, (RL.runBits runs n).length ≤ i → v.get m i = ok false) ∧
+      (∀ i, v.rank m i = ok (rankSpec (RL.runBits runs n) i)) ∧
+      (∀ i, i ≤ (RL.runBits runs n).length → v.rankZero m i = ok (rankZeroSpec (RL.runBits runs n) i)) ∧
+      (∀ i, v.rankZero m i = ok (i - rankSpec (RL.runBits runs n) i)) ∧
+      (∀ r, v.select m r = ok (selectSpec (RL.runBits runs n) r)) ∧
+      (∀ r, v.selectZero m r = ok (selectZeroSpec (RL.runBits runs n) r)) ∧
+      (∀ x, ∃ oi oi', v.predecessor m x = ok oi ∧ oi.nextQ m v = ok (predSpec (RL.runBits runs n) x, oi')) ∧
+      (∀ x, ∃ oi oi', v.successor m x = ok oi ∧ oi.nextQ m v = ok (succSpec (RL.runBits runs n) x, oi')) ∧
       ∃ it0 e endPos, v.runIter = ok it0 ∧
         RunIter.collect m v ((maximalRuns (RL.runBits runs n)).length + 1) it0 =
           ok (RunIter.withPos 0 (maximalRuns (RL.runBits runs n)), e) ∧
         e.pos = ((RL.runBits runs n).count true, endPos) ∧ endPos ≤ (RL.runBits runs n).length := by
-  obtain ⟨b, v, hb, _, hv⟩ := construction_succeeds m runs n hruns hn
-  obtain ⟨_, _, _, _, hlen⟩ := builder_accepts_every_run_list m runs n hruns hn
-  obtain ⟨h1, h2, h3, h4⟩ := run_iterator_yields_maximal_runs m runs n hruns hn b hb v hv
-  exact ⟨b, v, hb, hv, h1, h1.trans hlen, h2, h3, h4⟩
+  obtain ⟨b, hb, _, _, hlen⟩ := builder_accepts_every_run_list m runs n hruns hn
+  have h := queries_exact_any_history m (RL.callsOf runs n) (RL.callsOf_argsOk runs n 0 hruns hn) b hb
+  rw [RL.callsOf_spec runs n hruns] at h
+  obtain ⟨v, hv, h1, h⟩ := h
+  exact ⟨b, v, hb, hv, h1, h1.trans hlen, h⟩
 
-/-! ### 5. findings F8, F9, F10 (documentation: the `…Old` functions are the code as first written) -/
+/-! ### 6. the other iterators (any accepted call history; `B` = the bit sequence described) -/
+
+/-- `one_iter()`: `next()` until `None` yields the set positions of `B` in order, ranked `0, 1, …` -/
+theorem one_iter_exact (m : Mode) (calls : List RL.BCall) (hc : ∀ c ∈ calls, RL.callArgsOk c)
+    (b : RLBuilder) (hb : RL.runBCalls m calls {} = ok b) (v : RL) (hv : RL.ofBuilder m b = ok v)
+    (F : Nat) (hF : v.ones + 1 ≤ F) :
+    ∃ st items, v.oneIter = ok st ∧ RLQ.drainOne m v F st = ok items ∧
+      items.map (·.2) = onesPos (calls.foldl RL.specCall []) ∧
+      items.map (·.1) = List.range ((calls.foldl RL.specCall []).count true) :=
+  RLQ.build_oneIter m calls hc b hb v hv (block_count_bound m calls hc b hb v hv).2 F hF
+
+/-- `iter()`: `next()` until `None` yields exactly the bit sequence `B` -/
+theorem bit_iter_exact (m : Mode) (calls : List RL.BCall) (hc : ∀ c ∈ calls, RL.callArgsOk c)
+    (b : RLBuilder) (hb : RL.runBCalls m calls {} = ok b) (v : RL) (hv : RL.ofBuilder m b = ok v)
+    (F : Nat) (hF : v.len + 1 ≤ F) :
+    ∃ st, v.iter = ok st ∧ RLQ.drainBits m v F st = ok (calls.foldl RL.specCall []) :=
+  RLQ.build_iter m calls hc b hb v hv (block_count_bound m calls hc b hb v hv).2 F hF
+
+/-- `zero_iter()`: `next()` until `None` yields the unset positions of `B` in order, ranked `0, 1, …` -/
+theorem zero_iter_exact (m : Mode) (calls : List RL.BCall) (hc : ∀ c ∈ calls, RL.callArgsOk c)
+    (b : RLBuilder) (hb : RL.runBCalls m calls {} = ok b) (v : RL) (hv : RL.ofBuilder m b = ok v)
+    (F : Nat) (hF : v.countZeros + 1 ≤ F) :
+    ∃ st items, v.zeroIter m = ok st ∧ RLQ.drainZero m v F st = ok items ∧
+      items.map (·.2) = zerosPos (calls.foldl RL.specCall []) ∧
+      items.map (·.1) = List.range ((calls.foldl RL.specCall []).count false) :=
+  RLQ.build_zeroIter m calls hc b hb v hv (block_count_bound m calls hc b hb v hv).2 F hF
+
+/-- `select_iter(r)` for EVERY `r`: the set positions of rank `r, r + 1, …` in order, each with its rank, then
+`None`; nothing for `r ≥ count_ones` -/
+theorem select_iter_exact (m : Mode) (calls : List RL.BCall) (hc : ∀ c ∈ calls, RL.callArgsOk c)
+    (b : RLBuilder) (hb : RL.runBCalls m calls {} = ok b) (v : RL) (hv : RL.ofBuilder m b = ok v)
+    (r F : Nat) (hF : (calls.foldl RL.specCall []).count true - r + 1 ≤ F) :
+    ∃ st items, v.selectIter m r = ok st ∧ RLQ.drainOne m v F st = ok items ∧
+      items.map (·.2) = (onesPos (calls.foldl RL.specCall [])).drop r ∧
+      items.map (·.1) = List.range' r ((calls.foldl RL.specCall []).count true - r) := by
+  obtain ⟨g, _, e2, _⟩ := Glue5.rl_good m calls hc b hb v hv
+  exact Glue5.rl_selectIter_drain m _ g e2 r F hF
+
+/-- `select_zero_iter(r)` for EVERY `r` (PARTIAL: the start only): the call succeeds; for `r ≥ count_zeros` it
+is the documented empty iterator, whose `next()` is `None`; otherwise it stands at `(r, select_zero(r))`.
+Not proven: the enumeration by the following `next()` calls. -/
+theorem select_zero_iter_starts (m : Mode) (calls : List RL.BCall) (hc : ∀ c ∈ calls, RL.callArgsOk c)
+    (b : RLBuilder) (hb : RL.runBCalls m calls {} = ok b) (v : RL) (hv : RL.ofBuilder m b = ok v) (r : Nat) :
+    (∃ z, v.selectZeroIter m r = ok z ∧
+      (r < (calls.foldl RL.specCall []).count false →
+        z.pos.1 = r ∧ selectZeroSpec (calls.foldl RL.specCall []) r = some z.pos.2)) ∧
+    ((calls.foldl RL.specCall []).count false ≤ r →
+      v.selectZeroIter m r = ok (Glue5.rlZeroEnd v) ∧
+      (Glue5.rlZeroEnd v).nextQ m v = ok (none, Glue5.rlZeroEnd v)) := by
+  obtain ⟨g, e1, e2, e3⟩ := Glue5.rl_good m calls hc b hb v hv
+  constructor
+  · obtain ⟨z, hz, hpos⟩ := Glue5.rl_selectZeroIter_ok m g r
+    refine ⟨z, hz, fun hr => ?_⟩
+    obtain ⟨p1, p2⟩ := hpos (by rw [e3]; exact hr)
+    rw [g.selectZero m r, e1, RLQ.selectZeroR_maximalRuns] at p2
+    exact ⟨p1, Outcome.ok.inj p2⟩
+  · intro hr
+    refine ⟨(Glue5.rl_selectZero_past m v r (by rw [e3]; exact hr)).2, Glue5.rl_zeroEnd_next m v ?_⟩
+    rw [e1, e2]; exact List.count_le_length
+
+/-! ### 7. findings F8, F9, F10 (documentation: the `…Old` functions are the code as first written) -/
 
 /-- F8: `parameters` as first written added the universe size to a divisor before dividing — an arithmetic
 overflow panic (checked build) for a universe of 2^63 already, although every quantity involved fits … -/
@@ -347,6 +480,69 @@ example :
         let it ← v.runIter
         let (rs, _) ← RunIter.collect .wrapping v 3 it
         return rs.map (·.2)) = ok [(2, 2), (6, 8)] := by
+  decide +kernel
+/-- … and the queries on that instance, in- and out-of-range arguments (1 block; `rank_zero(20)` is the
+computed `20 − 6`, beyond the defined domain), both modes -/
+example :
+    (do let b ← RL.runBCalls .checked (RL.callsOf [(0, 2), (4, 1), (5, 3)] 12) {}
+        let v ← RL.ofBuilder .checked b
+        let g ← v.get .checked 4
+        let g2 ← v.get .checked (2 ^ 64 - 1)
+        return (v.blocks, g, g2)) = ok (1, true, false) := by
+  decide +kernel
+example :
+    (do let b ← RL.runBCalls .checked (RL.callsOf [(0, 2), (4, 1), (5, 3)] 12) {}
+        let v ← RL.ofBuilder .checked b
+        let r ← v.rank .checked 6
+        let r2 ← v.rank .checked (2 ^ 64 - 1)
+        let rz ← v.rankZero .checked 12
+        let rz2 ← v.rankZero .checked 20
+        return (r, r2, rz, rz2)) = ok (4, 6, 6, 14) := by
+  decide +kernel
+example :
+    (do let b ← RL.runBCalls .checked (RL.callsOf [(0, 2), (4, 1), (5, 3)] 12) {}
+        let v ← RL.ofBuilder .checked b
+        let s ← v.select .checked 2
+        let s2 ← v.select .checked 6
+        let sz ← v.selectZero .checked 2
+        let sz2 ← v.selectZero .checked (2 ^ 64 - 1)
+        return (s, s2, sz, sz2)) = ok (some 4, none, some 8, none) := by
+  decide +kernel
+example :
+    (do let b ← RL.runBCalls .checked (RL.callsOf [(0, 2), (4, 1), (5, 3)] 12) {}
+        let v ← RL.ofBuilder .checked b
+        let p ← v.predecessor .checked 3
+        let (pi, _) ← p.nextQ .checked v
+        let p2 ← v.predecessor .checked (2 ^ 64 - 1)
+        let (pi2, _) ← p2.nextQ .checked v
+        let q ← v.successor .checked 2
+        let (qi, _) ← q.nextQ .checked v
+        let q2 ← v.successor .checked 12
+        let (qi2, _) ← q2.nextQ .checked v
+        return (pi, pi2, qi, qi2)) = ok (some (1, 1), some (5, 7), some (2, 4), none) := by
+  decide +kernel
+example :
+    (do let b ← RL.runBCalls .wrapping (RL.callsOf [(0, 2), (4, 1), (5, 3)] 12) {}
+        let v ← RL.ofBuilder .wrapping b
+        let r ← v.rank .wrapping 6
+        let s ← v.select .wrapping 2
+        let sz ← v.selectZero .wrapping 2
+        return (v.blocks + 8 < U64, r, s, sz)) = ok (true, 4, some 4, some 8) := by
+  decide +kernel
+/-- the reference answers on that instance -/
+example : (rankSpec (RL.runBits [(0, 2), (4, 1), (5, 3)] 12) 6 = 4 ∧
+    rankZeroSpec (RL.runBits [(0, 2), (4, 1), (5, 3)] 12) 12 = 6 ∧
+    selectSpec (RL.runBits [(0, 2), (4, 1), (5, 3)] 12) 2 = some 4 ∧
+    selectSpec (RL.runBits [(0, 2), (4, 1), (5, 3)] 12) 6 = none ∧
+    selectZeroSpec (RL.runBits [(0, 2), (4, 1), (5, 3)] 12) 2 = some 8 ∧
+    predSpec (RL.runBits [(0, 2), (4, 1), (5, 3)] 12) 3 = some (1, 1) ∧
+    predSpec (RL.runBits [(0, 2), (4, 1), (5, 3)] 12) (2 ^ 64 - 1) = some (5, 7) ∧
+    succSpec (RL.runBits [(0, 2), (4, 1), (5, 3)] 12) 2 = some (2, 4) ∧
+    succSpec (RL.runBits [(0, 2), (4, 1), (5, 3)] 12) 12 = none) := by decide
+/-- a vector with more than 8 blocks (the F10 instance: 9 blocks) also meets the block-count bound -/
+example : (do let b ← RL.runCalls .checked RL.zeroIdxCalls {}
+              let v ← RL.ofBuilder .checked b
+              return (v.blocks, decide (2 * v.blocks ≤ v.len + 1))) = ok (9, true) := by
   decide +kernel
 /-- no runs at all; runs of length 1; the largest positions -/
 example : RL.RunsFrom 0 [] ∧ RL.RunsFrom 0 [(2 ^ 64 - 2, 1)] ∧ RL.runBits [] 3 = [false, false, false] := by
